@@ -17,6 +17,8 @@
 -/
 import BumpverVerif.Model.Plan
 import BumpverVerif.Proofs.PlanLemmas
+-- the functions this property's mechanism lives in are TRANSLATED from the Python source on every run (Gen/F_*.lean) and proved equal to the hand model:
+import BumpverVerif.Proofs.Tie_parseVcsOptions
 namespace BV
 
 /-- mutating VCS commands -/
